@@ -412,7 +412,13 @@ class NP2Converter:
         n_shanks = self.nshank or np.unique(chn_info["shank"]).astype(np.int16)
         label = self.ap_file.parent.parts[-1]
         shank_info = {}
-        self.already_exists = False
+        # decide before anything is created: a partly existing output (e.g. left by an interrupted run) must not get the
+        # missing shank folders and empty files added by a run that then reports it did nothing
+        self.already_exists = (not overwrite) and any(
+            self.ap_file.parent.parent.joinpath(label + chr(97 + int(sh)) + self.extra).exists() for sh in n_shanks
+        )
+        if self.already_exists:
+            return shank_info
 
         for sh in n_shanks:
             _shank_info = {}
